@@ -886,6 +886,22 @@ func init() {
 	intrinsics["errors.Is"] = func(x *Exec, a []Value) Value {
 		e, _ := a[0].(Iface).v.(*ErrObj)
 		t, _ := a[1].(Iface).v.(*ErrObj)
+		if tt := a[1].(Iface).t; tt != nil && typeKey(tt) == "syscall.Errno" {
+			// errors.Is(err, syscall.EXXX): the model's error kinds are the errno names
+			want := ""
+			if k, ok := a[1].(Iface).v.(*Term); ok && k.op == OpConst {
+				want = map[uint64]string{2: "ENOENT", 5: "EIO", 17: "EEXIST", 20: "ENOTDIR", 21: "EISDIR", 22: "EINVAL", 39: "ENOTEMPTY"}[k.k]
+			}
+			if want == "" {
+				x.engineErr("errors.Is: unmodelled errno")
+			}
+			for ; e != nil; e = e.wrap {
+				if e.kind == want {
+					return x.c.st.True
+				}
+			}
+			return x.c.st.False
+		}
 		for e != nil {
 			if e == t {
 				return x.c.st.True
